@@ -316,6 +316,29 @@ def run(tier, seed):
                    ".mprotect_readonly().unwrap().munlock().unwrap().mprotect_noaccess().unwrap().mprotect_readonly().unwrap().mlock().unwrap().mprotect_readwrite().unwrap()",
                    ".munlock().unwrap().mprotect_readonly().unwrap().mprotect_readwrite().unwrap().mprotect_noaccess().unwrap().mprotect_readwrite().unwrap()",
                    ".munlock().unwrap().munlock().unwrap().mlock().unwrap().mprotect_readonly().unwrap()"]
+    # a stream's MODE comes from its constructor: none of these ways of getting a push stream out of `init_pull` (or a pull stream
+    # out of `init_push`) may compile
+    CTOR_MISUSE = [
+        ("annotated_push_from_init_pull", "let mut s: DryocStream<Push> = DryocStream::init_pull(&key, &header); std::hint::black_box(&s);"),
+        ("turbofish_push_init_pull", "let mut s = DryocStream::<Push>::init_pull(&key, &header); std::hint::black_box(&s);"),
+        ("inferred_push_from_init_pull", "let mut s = DryocStream::init_pull(&key, &header); let c: Vec<u8> = s.push_to_vec(&msg, None, Tag::MESSAGE).unwrap(); std::hint::black_box(c);"),
+        ("annotated_pull_from_init_push", "let (mut s, h2): (DryocStream<Pull>, Header) = DryocStream::init_push(&key); std::hint::black_box(&s);"),
+        ("turbofish_pull_init_push", "let (mut s, h2) = DryocStream::<Pull>::init_push(&key); std::hint::black_box(&s);"),
+        ("inferred_pull_from_init_push", "let (mut s, h2) = DryocStream::init_push(&key); let r = s.pull_to_vec(&ct, None); std::hint::black_box(r.is_ok());"),
+    ]
+    cjobs = []
+    for name, body in CTOR_MISUSE:
+        src = "#![allow(unused)]\nuse dryoc::dryocstream::*;\nfn main() {\n    let key = Key::gen();\n    let (mut push, header): (DryocStream<Push>, Header) = DryocStream::init_push(&key);\n    let msg = b\"hello\".to_vec();\n    let ct: Vec<u8> = push.push_to_vec(&msg, None, Tag::MESSAGE).unwrap();\n    %s\n}\n" % body
+        cjobs.append(("m_" + name, src, rlib, deps, outdir, False))
+    with ThreadPoolExecutor(max_workers=NPROC) as ex:
+        couts = list(ex.map(compile_one, cjobs))
+    for (name, compiled, codes, ran), job in zip(couts, cjobs):
+        res.evaluations += 1
+        res.count("stream-constructor-misuse")
+        res.distinct.add(name + str(compiled))
+        if compiled:
+            res.violations.append({"kind": "predicate", "line": "typestate_stream_ctor %s" % name, "answers": {"compiled": True, "program": job[1]},
+                                   "why": "a stream of one mode obtained from the other mode's constructor compiles"})
     ejobs = []
     for mi, mk in enumerate(EMPTY_MK):
         for pi, path in enumerate(EMPTY_PATHS):
